@@ -505,6 +505,28 @@ class SStr(Proxy):
         cx().assume_z3(z3.Contains(self.t, r))
         return self._mk(r)
 
+    def lstrip(self, chars=None):
+        f = self._uf("py_lstrip" if chars is None else "py_lstrip_%s" % abs(hash(chars)))
+        r = f(self.t)
+        cx().assume_z3(z3.SuffixOf(r, self.t))
+        return self._mk(r)
+
+    def rstrip(self, chars=None):
+        f = self._uf("py_rstrip" if chars is None else "py_rstrip_%s" % abs(hash(chars)))
+        r = f(self.t)
+        cx().assume_z3(z3.PrefixOf(r, self.t))
+        return self._mk(r)
+
+    def removesuffix(self, suffix):
+        z = self._other(suffix)
+        n, k = z3.Length(self.t), z3.Length(z)
+        return self._mk(z3.If(z3.And(k > 0, z3.SuffixOf(z, self.t)), z3.SubString(self.t, 0, n - k), self.t))
+
+    def removeprefix(self, prefix):
+        z = self._other(prefix)
+        n, k = z3.Length(self.t), z3.Length(z)
+        return self._mk(z3.If(z3.And(k > 0, z3.PrefixOf(z, self.t)), z3.SubString(self.t, k, n - k), self.t))
+
     def encode(self, enc="utf-8", errors="strict"):
         if self.is_bytes:
             raise AttributeError("encode")
